@@ -20,27 +20,7 @@ pub enum Which {
     C09,
 }
 
-pub fn build(m: &Message) -> Result<Result<Vec<u8>, String>, PanicEv> {
-    guard(|| {
-        let mut b = MessageBuilder::new();
-        match b.build_message(m) {
-            Ok(f) => Ok(f.to_vec()),
-            Err(e) => Err(format!("{:?}", e)),
-        }
-    })
-}
-
-/// decode a frame that must be accepted; None if the frame itself is rejected
-pub fn decode(frame: &[u8]) -> Result<Option<Message>, PanicEv> {
-    guard(|| match MessageFrame::new(frame) {
-        Ok(f) => Some(f.get_message()),
-        Err(_) => None,
-    })
-}
-
-pub fn is_typed(m: &Message) -> bool {
-    m.number().is_some()
-}
+pub use crate::io::{build, decode, is_typed};
 
 fn variant_name(m: &Message) -> String {
     let d = format!("{:?}", m);
@@ -326,7 +306,7 @@ fn no_wire_form(ctx: &mut Ctx, rng: &mut Rng, which: Which) {
 
 pub fn run(p: &Params, which: Which) -> Outcome {
     let seed = p.seed;
-    let n_bases = p.size(40_000, 8_000_000);
+    let n_bases = p.size(500_000, 12_000_000);
     let mutants_per_base = 6u64;
     let per = (n_bases / p.workers as u64).max(1);
     let nums: Vec<u16> = gen::supported_numbers().to_vec();
